@@ -53,16 +53,17 @@ macro "errok" : tactic => `(tactic| ((try dsimp only); repeat' (first
   | (simp only [*, ↓reduceIte, if_true, if_false])
   | (guard_ite_head'; split_ifs))))
 
-/-- the exception the server may send for a frame whose header is `v[0..8)`: the frame's
-transaction id and unit id, the frame's function code, code 1 (illegal function) or 3 (illegal data value) -/
+/-- the exception the server sends for a frame (with a supported function code) that its parser refuses: the
+frame's transaction id and unit id, the frame's function code, code 3 (illegal data value). (Code 1 is produced by
+the classifier for unsupported function codes; the parsers' own "illegal function" branch is unreachable through
+the dispatcher, which selects the parser by the frame's function code.) -/
 def ErrFor (v : Bytes) (e : PErr) : Prop :=
-  ∃ c, (c = 1 ∨ c = 3) ∧ e = .tcp c (be16 (v.getD 0 0) (v.getD 1 0)) (v.getD 6 0) (v.getD 7 0)
+  e = .tcp 3 (be16 (v.getD 0 0) (v.getD 1 0)) (v.getD 6 0) (v.getD 7 0)
 
 macro "errfor_leaf" : tactic => `(tactic|
   (apply ErrOk.err
    first
-     | exact ⟨3, Or.inr rfl, by simp_all⟩
-     | exact ⟨1, Or.inl rfl, by simp_all⟩
+     | (show _ = _; simp_all; done)
      | (exfalso; simp_all; done)
      | (exfalso; omega)))
 
